@@ -30,11 +30,11 @@ def _last_eq(ghost, var, n):
 
 MD5_LOOPS = [
     {"function": "_crypt_crypt_md5crypt_rn", "anchor": "for (cnt = phr_size; cnt > 16; cnt -= 16)",
-     "invariant": "cnt <= phr_size && xv_md5_state == 1 && xv_md5_ctx == scratch && xv_phrase_absorbed >= 3", "decreases": "cnt"},
+     "invariant": "cnt <= phr_size && xv_md5_state == 1 && xv_md5_ctx == scratch && xv_phrase_absorbed >= 3 && xv_salt_absorbed >= 2", "decreases": "cnt"},
     {"function": "_crypt_crypt_md5crypt_rn", "anchor": "for (cnt = phr_size; cnt > 0; cnt >>= 1)",
-     "invariant": "cnt <= phr_size && xv_md5_state == 1 && xv_md5_ctx == scratch && xv_phrase_absorbed >= 3", "decreases": "cnt"},
+     "invariant": "cnt <= phr_size && xv_md5_state == 1 && xv_md5_ctx == scratch && xv_phrase_absorbed >= 3 && xv_salt_absorbed >= 2", "decreases": "cnt"},
     {"function": "_crypt_crypt_md5crypt_rn", "anchor": "for (cnt = 0; cnt < 1000; ++cnt)",
-     "invariant": "cnt <= 1000 && xv_md5_state == 0 && xv_md5_ctx == scratch && xv_phrase_absorbed >= 3 && "
+     "invariant": "cnt <= 1000 && xv_md5_state == 0 && xv_md5_ctx == scratch && xv_phrase_absorbed >= 3 && xv_salt_absorbed >= 2 && "
                   + _last_eq("xv_md5_last", "result", 16), "decreases": "1000 - cnt"},
 ]
 
